@@ -2,7 +2,10 @@
 C06 donor entries, C08 memory safety).
 
   mrouter_step   body of `for (auto i : grid.nodes_indices())`, outlined; the two inner loops
-                 (neighbours, weight normalisation) are unwound to n_neighbors_max.
+                 (neighbours, weight normalisation) are unwound to n_neighbors_max for 2 neighbour
+                 slots (profile grids) and closed by loop contracts (scan_loop_contract,
+                 norm_loop_contract; `lc=True`) for 4 and 8 slots (raster grids), where the unwound
+                 step did not finish in an hour.  Same function contract in both variants.
   mrouter        the sweep with the body replaced by a call, closed by a loop contract."""
 from fv.extract import Unit, R, V, RB, ALIAS
 from fv.runner import Group
@@ -150,13 +153,71 @@ def common_pre(nb, restricted):
     return ghost_decls(nb) + neighbors_contract(nb) + DIVS + PRED + pow_contract(restricted)
 
 
-def make_step(nb, restricted, finite):
+def lc_ghosts(nb):
+    """ghost locals of the loop-contract variant (specification only, no effect on the code): lower(k) of every neighbour slot of the ghost node,
+    evaluated once at entry from tables the step never assigns (checked by the assigns clause); the loop invariants then mention scalars only
+    (each table read inside an invariant costs ~6 pointer obligations per instantiation, four instantiations per loop)."""
+    return "/* ghost locals (specification only) */\n" + "".join("_Bool gl_low%d = %s;\n" % (k, lower(k)) for k in range(nb))
+
+
+def _sum(term, nb):
+    return "(" + " + ".join("((%s) ? 1 : 0)" % term.replace("%k", str(k)) for k in range(nb)) + ")"
+
+
+def scan_loop_contract(nb, restricted, finite):
+    """Loop contract of the neighbour scan (loop ordinal 0), used instead of complete unwinding for 4 and 8 neighbour slots (the unwound step did not
+    finish in an hour for nb = 4).  The clauses are the running versions of the step's postconditions, ranging over the CONSTANT slots 0..nb-1
+    guarded by `k < nb_k` (neighbour slots already met) / `s < nrec` (receiver slots already written): linear size, one symbolic iteration.
+      * nrec is the number of strictly lower unmasked neighbour slots met so far; the multiset of (receiver, distance) slots written so far equals
+        the multiset of (idx, distance) of those neighbour slots (ghost value (GX, GD)), both at the ghost node i == G where the list is GN;
+      * donor row GR: count == entry count + number of receiver slots written so far that hold GR (no wrap-around: the stated row-capacity instance
+        FSL_PRE at the write; a receiver is strictly lower, hence never i itself), entries below the entry count unchanged, entries from the entry
+        count on hold i (that GR is then among the receiver slots follows from the count clause);
+      * the neighbour buffer and neighbors_n are not assigned by the loop, so what grid_neighbors() ensured about them stays known;
+      * weights (the `finite` variants): weights_sum is not NaN and bounds every weight slot written so far from above; in the normal-range variant every
+        such slot is >= DBL_MIN and weights_sum <= nrec * 2^997 (1e300 < 2^997, and k * 2^997 is exact, so the bound is inductive under rounding)."""
+    seen = "(%k < nb_k && gl_low%k)"   # gl_low<k>: ghost local (LC_GHOSTS), the predicate lower(k) read once from the read-only inputs
+    cells = "m_receivers[i], m_receivers_distance[i], m_receivers_weight[i]"
+    c = r"""
+__CPROVER_assigns(nb_k, slope, weight, weights_sum, nrec, %(CELLS)s, __CPROVER_object_whole(m_donors), __CPROVER_object_whole(m_donors_count))
+__CPROVER_loop_invariant(nb_k <= neighbors_n && neighbors_n <= FSL_NBMAX && nrec <= nb_k)
+__CPROVER_loop_invariant(i == G ==> nrec == %(NSEEN)s)
+__CPROVER_loop_invariant(i == G ==> %(CREC)s == %(CNB)s)
+__CPROVER_loop_invariant(CNT(GR) >= __CPROVER_loop_entry(CNT(GR)) && CNT(GR) == __CPROVER_loop_entry(CNT(GR)) + %(NSLOTS)s)
+__CPROVER_loop_invariant(GS < __CPROVER_loop_entry(CNT(GR)) ==> DON(GR, GS) == __CPROVER_loop_entry(DON(GR, GS)))
+__CPROVER_loop_invariant((__CPROVER_loop_entry(CNT(GR)) <= GS && GS < CNT(GR)) ==> DON(GR, GS) == i)
+""" % dict(CELLS=cells, NSEEN=_sum(seen, nb),
+           CREC=_sum("%k < nrec && REC(i, %k) == GX && DIST(i, %k) == GD", nb),
+           CNB=_sum(seen + " && GN[%k].idx == GX && GN[%k].distance == GD", nb),
+           NSLOTS=_sum("%k < nrec && REC(i, %k) == GR && GR != i", nb))
+    if finite:
+        c += "__CPROVER_loop_invariant(weights_sum >= 0)\n"
+        c += "__CPROVER_loop_invariant(%s)\n" % conj("%k < nrec ==> (WGT(i, %k) >= " + ("DBL_MIN" if restricted else "0") + " && WGT(i, %k) <= weights_sum)", nb)
+        if restricted:
+            c += "__CPROVER_loop_invariant(%s)\n" % " && ".join("(nrec == %d ==> weights_sum <= %d.0 * 0x1p997)" % (k, k) for k in range(nb + 1))
+    return c + "__CPROVER_decreases(neighbors_n - nb_k)\n"
+
+
+def norm_loop_contract(nb, finite):
+    """Loop contract of the weight normalisation (loop ordinal 1): slots below j are normalised, the others still hold the raw weights.  The range
+    clause is conditional on 0 < weights_sum < +inf, which is exactly what fails for known finding F5 (the unrestricted variant then fails at the
+    function's postcondition, not at this invariant)."""
+    cells = "m_receivers_weight[i]"
+    c = "\n__CPROVER_assigns(j, %s)\n__CPROVER_loop_invariant(j <= nrec)\n" % cells
+    if finite:
+        c += "__CPROVER_loop_invariant(%s)\n" % conj("(%k < j && weights_sum > 0 && weights_sum < INFINITY) ==> (WGT(i, %k) >= 0 && WGT(i, %k) <= 1)", nb)
+        c += "__CPROVER_loop_invariant(%s)\n" % conj("(j <= %k && %k < nrec) ==> (WGT(i, %k) >= 0 && WGT(i, %k) <= weights_sum)", nb)
+    return c + "__CPROVER_decreases(nrec - j)\n"
+
+
+def make_step(nb, restricted, finite, lc=False):
     return Unit(
+        loops=({0: scan_loop_contract(nb, restricted, finite), 1: norm_loop_contract(nb, finite)} if lc else None),
         name="mrouter_step", file=ROUTER_H,
         anchor=r"class flow_operator_impl<FG, multi_flow_router, flow_graph_fixed_array_tag>.*?void apply\(graph_impl_type& graph_impl,\s*data_array_type& elevation,\s*thread_pool_type&\s*\)",
         inner=r"for \(auto i : grid\.nodes_indices\(\)\)\s*\{",
         sig="void mrouter_step(size_t i, %s)" % PARAMS,
-        pre=common_pre(nb, restricted), defs=DEFS, body_prefix=STEP_LOCALS,
+        pre=common_pre(nb, restricted), defs=DEFS, body_prefix=STEP_LOCALS + (lc_ghosts(nb) if lc else ""),
         rules=STEP_RULES,
         contract=FRESH + ghost_requires(nb) + r"""
 __CPROVER_requires(i < gsize)
@@ -173,7 +234,9 @@ __CPROVER_ensures((GS < __CPROVER_old(CNT(GR)) && GS < DON_W) ==> DON(GR, GS) ==
 __CPROVER_ensures((__CPROVER_old(CNT(GR)) <= GS && GS < CNT(GR) && GS < DON_W) ==> (DON(GR, GS) == i && !TERMINAL(i) && %(INREC)s))
 """ % dict(ROUTED=routed(nb, finite),
            NSLOTS="(" + " + ".join("((%d < RCNT(i) && REC(i, %d) == GR && GR != i) ? 1 : 0)" % (k, k) for k in range(nb)) + ")",
-           ROWCELLS=", ".join("REC(i, %d), DIST(i, %d), WGT(i, %d)" % (k, k, k) for k in range(nb)),
+           # loop-contract variant: the same frame written as three whole rows (REC_W == nb), one target (one havoc at the loop head) per row
+           ROWCELLS=("m_receivers[i], m_receivers_distance[i], m_receivers_weight[i]" if lc else
+                     ", ".join("REC(i, %d), DIST(i, %d), WGT(i, %d)" % (k, k, k) for k in range(nb))),
            SAME=conj("REC(G, %k) == __CPROVER_old(REC(G, %k)) && SAME_D(DIST(G, %k), __CPROVER_old(DIST(G, %k))) && SAME_D(WGT(G, %k), __CPROVER_old(WGT(G, %k)))", nb),
            INREC=disj("%k < RCNT(i) && REC(i, %k) == GR", nb)),
     )
@@ -243,24 +306,25 @@ def defines(nb):
     return ["REC_W=%d" % nb, "REC_BYTES=%d" % (8 * nb), "DON_W=%d" % (nb + 1), "DON_BYTES=%d" % (8 * (nb + 1)), "FSL_NBMAX=%d" % nb]
 
 
-def groups(nb, tier="quick"):
+def groups(nb, tier="quick", lc=False):
+    """lc: the two inner loops of the step are closed by loop contracts (scan_loop_contract / norm_loop_contract) instead of being unwound"""
     gs = []
     for restricted, finite, tag in ((False, False, "structure"), (True, True, "weights_normal_range"), (False, True, "weights_finite")):
-        step = make_step(nb, restricted, finite)
+        step = make_step(nb, restricted, finite, lc)
         gs.append(Group(
             name="mrouter.step.%s.nb%d" % (tag, nb), units=[is_masked, is_base_level, step],
             harness=harness("mrouter_step", nb, "nondet_size_t(), "),
             entry="h_mrouter_step", enforce="mrouter_step",
             replace=["grid_neighbors", "fsl_div_abs", "fsl_div_unit", "fsl_pow_r" if restricted else "fsl_pow"],
-            unwindset={("mrouter_step", 0): nb + 1, ("mrouter_step", 1): nb + 1}, defines=defines(nb),
-            backend="sat", timeout=900, min_obligations=50, tier=tier, replay="replay/routing.cpp",
+            unwindset=(None if lc else {("mrouter_step", 0): nb + 1, ("mrouter_step", 1): nb + 1}), loop_contracts=lc, defines=defines(nb),
+            backend=("cadical" if lc else "sat"), timeout=900, min_obligations=50, tier=tier, replay="replay/routing.cpp",
             clause={"structure": "C05 at one node: own single receiver iff terminal or no strictly lower unmasked neighbour; otherwise the receiver slots are, "
                                  "as a multiset of (node, distance), exactly the strictly lower unmasked neighbour slots; frame; donor entries",
                     "weights_normal_range": "C05 weights in [0,1] (finite) whenever slope^p stays in the normal range [DBL_MIN, 1e300] -- the complement of known finding F5",
                     "weights_finite": "C05 weights finite for every input (pow may underflow to 0 or overflow: known finding F5)"}[tag] +
                    "; <= %d neighbours" % nb))
     outer = make_outer(nb, False)
-    step = make_step(nb, False, False)
+    step = make_step(nb, False, False, lc)   # the contract used by replacement is textually the one the structure group enforces
     gs.append(Group(
         name="mrouter.loop.nb%d" % nb, units=[is_masked, is_base_level, step, outer],
         harness=harness("mrouter", nb), entry="h_mrouter", enforce="mrouter",
@@ -272,9 +336,11 @@ def groups(nb, tier="quick"):
 
 
 _Q = groups(2)
-_T = groups(4, "thorough")
+# thorough tier: the raster neighbour maxima (4 = rook / bishop, 8 = queen); the step's inner loops are closed by loop contracts
+_T = groups(4, "thorough", lc=True) + groups(8, "thorough", lc=True)
 for _g in _T:
-    _g.object_bits = 12
+    if ".loop." in _g.name:
+        _g.object_bits = 12
     _g.timeout = 3600
 GROUPS = {"C05": _Q + _T,
           # donor entries with multiplicity (C06) and the router lemma of C01 are postconditions of the same step/loop groups
@@ -292,7 +358,9 @@ PROPS = {
             "donor row capacity is a stated precondition instance (see C04)",
             "xtensor fill() is element-wise",
         ],
-        undecided=["weights proportional to slope^p and summing to one *within rounding*: no bit-precise statement exists (DESIGN 1.4)"],
+        undecided=["weights proportional to slope^p and summing to one *within rounding*: no bit-precise statement exists (DESIGN 1.4)",
+                   "decided for grids with <= 8 neighbour slots (profile 2: quick tier; raster rook/bishop 4 and queen 8: thorough tier, groups "
+                   "mrouter.*.nb4 / .nb8); wider neighbour lists (triangular meshes) are not covered by an obligation group"],
     ),
 }
 
